@@ -95,7 +95,7 @@ class Sim:
         self.yielding_calls = 0
         self.fault_counts = {}
         self.fc_calls = []  # (rid, key, text)
-        self.data_seen = set()  # id() of the evaluatable-data bodies that peers were handed / read
+        self.data_seen = set()  # tokens of the evaluatable-data bodies the requirement evaluators were handed
         self.shared_violation = None  # (clause, detail) of a violation observed by a peer itself
         self.anonymous_results = {}
         self.probes = {}
@@ -187,7 +187,9 @@ class Sim:
 
     # ------------------------------------------------------------------ peer values (pure functions of request data)
     def rc_value(self, key, evaluatable_data, context=None):
-        self.data_seen.add(id(evaluatable_data.body))
+        token = (evaluatable_data.body.get("hints") or {}).get("0") if isinstance(evaluatable_data.body, dict) else None
+        if token is not None:
+            self.data_seen.add(token)
         scope = getattr(context, "scope", None)
         if scope in ("FULFILLED", "UNFULFILLED", "UNKNOWN"):
             return ConditionFulfilledValue(scope)  # an evaluation context handed in by the caller decides
